@@ -429,7 +429,9 @@ def run(ctx: Any, prog: Program) -> None:
         if not subs_ok:
             raise AnalysisError(f'{matcher_of[mode_]} has an unrecognised shape')
         tbl_name = mrets[0].value.value.id
-        em_ok = (isinstance(mrets[0].value.slice, ast.Call) and dotted(mrets[0].value.slice.func) == em.args.args[0].arg + '.group' and not mrets[0].value.slice.args)
+        sl_ = mrets[0].value.slice
+        em_ok = (isinstance(sl_, ast.Call) and dotted(sl_.func) == em.args.args[0].arg + '.group' and (not sl_.args or (len(sl_.args) == 1 and isinstance(sl_.args[0], ast.Constant) and sl_.args[0].value == 0))) \
+            or (isinstance(sl_, ast.Subscript) and dotted(sl_.value) == em.args.args[0].arg and isinstance(sl_.slice, ast.Constant) and sl_.slice.value == 0)          # match[0] is match.group()
         if tbl_name == 'ESCAPES_INV':
             table_ = INV
         else:
